@@ -46,11 +46,19 @@ def _make(family, a, b, boundary, modified=False):
     raise AssertionError(family)
 
 
-def one_d(S, family, level, boundary, t0, t1, modified=False):
+def one_d(S, family, level, boundary, t0, t1, modified=False, prior=False):
     a, h = _domain(S)
     b = a + h
     s, e = a + TS[t0] * h, a + TS[t1] * h
     grid = _make(family, [a], [b], boundary, modified)
+    if prior:
+        # the same grid object was used before on another (solver-chosen) sub-box and level, as the strategies do area after area
+        subs = _subs()
+        p0, p1 = subs[S.choice('prior_sub', len(subs))]
+        l0 = (1 if not boundary else 0) + S.choice('prior_level', 3)
+        grid.setCurrentArea([a + TS[p0] * h], [a + TS[p1] * h], [l0])
+        grid.getPoints()
+        grid.get_weights()
     grid.setCurrentArea([s], [e], [level])
     n_ann = int(grid.levelToNumPoints([level])[0])
     pts = [p[0] for p in grid.getPoints()]
@@ -202,6 +210,11 @@ def jobs(tier):
                     continue  # a level-0 grid consists of boundary points only; the strategies never request it without boundary
                 js.append(Job('1d[%s,l=%d,%s%s,sub=%d-%d]' % (family, level, 'b' if boundary else 'nb', ',mod' if modified else '', t0, t1), one_d,
                               {'family': family, 'level': level, 'boundary': boundary, 't0': t0, 't1': t1, 'modified': modified}))
+    for level in ((1, 2) if tier == 'quick' else (1, 2, 3)):
+        for (t0, t1) in ((0, 2), (1, 3), (2, 4)):
+            for family, boundary in (('trapezoid', True), ('trapezoid', False), ('simpson', True)):
+                js.append(Job('1d-reuse[%s,l=%d,%s,sub=%d-%d]' % (family, level, 'b' if boundary else 'nb', t0, t1), one_d,
+                              {'family': family, 'level': level, 'boundary': boundary, 't0': t0, 't1': t1, 'prior': True}, validate=5))
     lm = 2 if tier == 'quick' else 3
     subs2 = [((0, 4), (0, 4)), ((0, 2), (2, 4)), ((1, 2), (0, 4)), ((2, 4), (1, 3))]
     for l0 in range(0, lm + 1):
